@@ -8,6 +8,9 @@
      "lazy"  : a lazily evaluated composition: kinds / lengths / identities of the operands per argument
                position, the kernel table over every tuple of operand leaves, how the composed object was
                traversed (law, gen) and O = the outcome of every next() until the end(s)
+     "call"  : a composite of functions (template tpl over base functions with parameter lists sigs) called with
+               every call of calls: leaves (each base function alone), tab (numeric expression over every tuple of
+               calls) and O (the composite's answers)
      "range" : a range-law kernel applied to lattice arguments (units of 1/8)
      "inv"   : an inverse-pair function at the exact point k, its value and the round trip   *)
 EXTENDS Integers, Sequences, FiniteSets, TLC, Json, IOUtils
@@ -21,6 +24,7 @@ tvars == <<phase, ca, cb, ka, kb, args, tid, l>>
 Why(t) ==
     CASE t.ty = "lift" -> LiftWhy(t.ka, t.A, t.kb, t.B, t.tab, t.O, t.stopx)
       [] t.ty = "lazy" -> LazyWhy(t.ops, t.tab, t.law, t.gen, t.O)
+      [] t.ty = "call" -> CallWhy(t.sigs, t.calls, t.leaves, t.tab, t.O)
       [] t.ty = "range" -> RangeWhy(t.fn, t.a, t.r, t.r2)
       [] t.ty = "inv" -> InvWhy(t.fn, t.k, t.r, t.rt)
       [] OTHER -> "unknown-trace-type"
